@@ -231,6 +231,13 @@ pub fn write_canonical(c: &ArchiveContent, bucket_order: Option<&[u32]>) -> Vec<
 /// permuted (per-address order kept), strings placed in any order, duplicated per use or shared,
 /// a string that is a suffix of another one pointing into it.
 pub fn write_layout(c: &ArchiveContent, layout_seed: u64) -> Vec<u8> {
+    write_layout_mode(c, layout_seed, false)
+}
+
+/// `coincide`: a conforming layout built so that two unrelated numbers of the file are EQUAL - the text-relative offset of the first label
+/// name and the data-relative value of a string pointer (every use gets its own copy, the cells' strings come first, NUL padding - empty
+/// strings - moves the label names to that offset).  A reader that keys strings by "offset" across both tables would mix them up.
+pub fn write_layout_mode(c: &ArchiveContent, layout_seed: u64, coincide: bool) -> Vec<u8> {
     let be = c.big_endian;
     let mut r = Mix64(layout_seed ^ 0x1A70_07);
     let mut data = c.data.clone();
@@ -252,7 +259,8 @@ pub fn write_layout(c: &ArchiveContent, layout_seed: u64) -> Vec<u8> {
         }
     }
     let dup_mode = r.below(3); // 0 = every distinct string once, 1 = one copy per use, 2 = mixed
-    let share_tails = r.below(2) == 0;
+    let dup_mode = if coincide { 1 } else { dup_mode };
+    let share_tails = r.below(2) == 0 && !coincide;
     // decide the copies to store
     let mut copies: Vec<Vec<u8>> = Vec::new(); // encoded, without NUL
     let mut use_copy: Vec<usize> = Vec::new();
@@ -279,7 +287,25 @@ pub fn write_layout(c: &ArchiveContent, layout_seed: u64) -> Vec<u8> {
     }
     let mut text: Vec<u8> = Vec::new();
     let mut copy_off: Vec<usize> = vec![0; copies.len()];
+    let mut padded = !coincide;
+    if coincide {
+        // one copy per use: copy i belongs to use i; the cells' strings first, then the label names
+        order.sort_by_key(|ci| matches!(uses[*ci].0, Use::Label(..)));
+    }
     for ci in &order {
+        if !padded && matches!(uses[*ci].0, Use::Label(..)) {
+            padded = true;
+            let n_cell_str = uses.iter().filter(|(u, _)| matches!(u, Use::Cell(_))).count();
+            let n_ptr = c.cells.values().filter(|x| matches!(x, Cell::Pointer(_))).count() + n_cell_str;
+            let text_start = c.data.len() + 4 * n_ptr + 8 * (uses.len() - n_cell_str);
+            // the pointer value of the LAST cell string placed so far
+            if let Some(last) = order.iter().take_while(|k| **k != *ci).last() {
+                let v = text_start + copy_off[*last];
+                if v >= text.len() && v < (1 << 20) {
+                    text.resize(v, 0);
+                }
+            }
+        }
         copy_off[*ci] = text.len();
         text.extend_from_slice(&copies[*ci]);
         text.push(0);
